@@ -105,6 +105,7 @@ type Config struct {
 	// drops them (Session.Notices counts them). The database side of the proxy is then busy while the client
 	// side works - the situation of a pipelining client, LISTEN/NOTIFY or a chatty server.
 	NoticeEvery time.Duration
+	NoticeBurst int // notices per write (default 16)
 }
 
 // ErrTimeout marks an I/O deadline hit: the case is inconclusive, never a violation.
@@ -301,7 +302,10 @@ func Start(cfg Config) (*Session, error) {
 		go cfg.DBHandler(dbTap)
 	} else {
 		srv = newFakeServer(dbEnd, store)
-		srv.noticeEvery = cfg.NoticeEvery
+		srv.noticeEvery, srv.noticeBurst = cfg.NoticeEvery, cfg.NoticeBurst
+		if srv.noticeEvery == 0 && os.Getenv("VERIF_PG_NOISE") != "" {
+			srv.noticeEvery = 30 * time.Microsecond // experiment switch: every session of the process with background notices
+		}
 		go srv.serve()
 	}
 
